@@ -72,7 +72,9 @@ pub fn wellformed(lm: &LinearModel, source_vars: &[String], user_row_names: &[St
     }
     // no guessed constants: magnitudes stay within what the source constants and bounds can produce
     let big = lm.constraints().iter().flat_map(|c| c.coefficients().iter().chain(std::iter::once(&c.rhs()).map(|x| x).collect::<Vec<_>>()).cloned().collect::<Vec<_>>()).any(|v| v.abs() > 1e7);
-    if big {
+    // (a declared finite range of astronomic size legitimately shows up in the constants of the exact lowerings)
+    let declared_scale = lm.domain().iter().filter(|(n, _)| user_var_names.contains(n)).map(|(_, d)| crate::lm::Dom::from_vt(d.get_type()).bounds()).flat_map(|(lo, hi)| [lo, hi]).filter(|v| v.is_finite()).fold(0.0f64, |a, v| a.max(v.abs()));
+    if big && declared_scale < 1e3 {
         out.push(("suspicious-large-constant".into(), "a coefficient or right-hand side exceeds 1e7 although all source constants and bounds are below 1e3".into()));
     }
     out
@@ -278,21 +280,83 @@ fn check_text(i: u64, l: &mut Local) {
     }
 }
 
+
+/// family U: a user variable {U} of type {T} next to each kind of lowering; the twin model calls it `u_q`,
+/// then every auxiliary name of the twin's compiled model is given to the user variable in turn
+const U_TEMPLATES: [(&str, &str); 9] = [
+    ("reified-and", "min (a and b) + {U}\ns.t.\n    a or b\n    {U} >= 0\ndefine\n    a, b as Boolean\n    {U} as {T}\n"),
+    ("reified-or-xor-implies-iff", "min (a or b) + (a xor b) + (a -> b) + (a <-> b) + {U}\ns.t.\n    {U} >= 0\ndefine\n    a, b as Boolean\n    {U} as {T}\n"),
+    ("witnessed-disjunction", "min {U}\ns.t.\n    (a and b) or (c and a)\n    {U} >= 0\ndefine\n    a, b, c as Boolean\n    {U} as {T}\n"),
+    ("exact-abs", "min y + {U}\ns.t.\n    abs{ x } = y\n    {U} >= 0\ndefine\n    x as Real(-2, 2)\n    y as Real(0, 9)\n    {U} as {T}\n"),
+    ("relaxed-abs-unbounded-operand", "min abs{ x } + {U}\ns.t.\n    x >= -2\n    {U} >= 0\ndefine\n    x as Real\n    {U} as {T}\n"),
+    ("relaxed-abs-bounded-operand", "min abs{ x } + {U}\ns.t.\n    {U} >= 0\ndefine\n    x as Real(-2, 2)\n    {U} as {T}\n"),
+    ("exact-max", "max max{ x, 1 } + {U}\ns.t.\n    {U} <= 1\ndefine\n    x as Real(-2, 2)\n    {U} as {T}\n"),
+    ("relaxed-max-and-exact-min", "min max{ x, 1 } + min{ x, 0, 1 } + {U}\ns.t.\n    {U} >= 0\ndefine\n    x as Real(-2, 2)\n    {U} as {T}\n"),
+    ("two-blocks-of-one-kind", "min abs{ x } + abs{ x - 1 } + {U}\ns.t.\n    abs{ x + 1 } >= 1\n    {U} >= 0\ndefine\n    x as Real(-2, 2)\n    {U} as {T}\n"),
+];
+const U_TYPES: [&str; 9] = ["Boolean", "Real", "NonNegativeReal", "Real(0, 2)", "Real(-2, 2)", "Real(0, 1)", "NonNegativeReal(0, 2)", "IntegerRange(0, 1)", "Real(-3, 3)"];
+
+fn check_collision(i: u64, l: &mut Local) {
+    let (tname, template) = U_TEMPLATES[(i as usize) / U_TYPES.len()];
+    let ty = U_TYPES[(i as usize) % U_TYPES.len()];
+    let compile = |name: &str| {
+        let src = template.replace("{U}", name).replace("{T}", ty);
+        let r = crate::core::catch(|| RoocParser::new(src.clone()).parse_and_transform(vec![], &IndexMap::new()).map_err(|e| e.to_string()).and_then(|m| Linearizer::linearize(m).map_err(|e| e.to_string())));
+        (src, r)
+    };
+    let (twin_src, twin) = compile("u_q");
+    let twin = match twin {
+        Ok(Ok(t)) => t,
+        _ => {
+            l.count("collision:twin-does-not-compile");
+            return;
+        }
+    };
+    l.count("collision:twins");
+    let aux: Vec<String> = twin.variables().iter().filter(|v| v.starts_with('$')).cloned().collect();
+    // the derived type of every auxiliary is also given to the user variable (exactly the declaration the linearizer makes)
+    for a in &aux {
+        l.count("collision:names-tried");
+        let (src, got) = compile(a);
+        let case = |what: String, lin: Option<String>| json!({"source": src, "twin": twin_src, "twin_variables": twin.variables(), "what": what, "linear": lin});
+        match got {
+            Err(p) => l.violation(format!("panic:collision:{tname}"), p.clone(), case(p, None)),
+            Ok(Err(_)) => l.count("collision:refused"),
+            Ok(Ok(lm)) => {
+                l.count("collision:compiled");
+                l.nontrivial(&src);
+                // the user variable and every auxiliary are distinct columns: as many variables and rows as the twin has
+                if lm.variables().len() != twin.variables().len() || lm.constraints().len() != twin.constraints().len() {
+                    let what = format!("user variable {a} as {ty}: the model compiles with {} variables and {} rows, the same model with the user variable called u_q has {} and {} (an auxiliary shares the user's column)", lm.variables().len(), lm.constraints().len(), twin.variables().len(), twin.constraints().len());
+                    l.violation(format!("auxiliary-collides-with-user-variable:{tname}"), what.clone(), case(what, Some(lm.to_string())));
+                }
+                if !lm.variables().contains(a) {
+                    let what = format!("user variable {a} is missing from the compiled model");
+                    l.violation(format!("user-variable-missing:{tname}"), what.clone(), case(what, Some(lm.to_string())));
+                }
+            }
+        }
+    }
+}
+
 pub fn run(mut run: Run) -> ! {
     crate::core::silence_panics();
     let quick = run.quick();
     let depth = if quick { 2 } else { 3 };
-    run.rule = format!("every linear model compiled from the C01 families (A: cores x context chains depth {depth} x relations x constants x declaration forms; B: logic trees x comparison forms; C: bound feeders x consumers; D: blocks over three variables with different ranges in every context) is checked against the structural invariants (sorted duplicate-free variables = domain keys, every source variable present, one coefficient per variable in every row and the objective, finite numbers, unique row names, $-prefixed auxiliaries, no constant above 1e7), every missing-bounds rejection against its contract (non-empty list, exactly the unbounded variables of the offending expression per the hooked bounds analysis), plus 22 adversarial texts (duplicate and colliding row names, user variables named like auxiliaries, unused declarations, vanishing coefficients, infinite constants, infinite bounds under exact lowerings, empty aggregations); distinct = model text");
+    run.rule = format!("every linear model compiled from the C01 families (A: cores x context chains depth {depth} x relations x constants x declaration forms; B: logic trees x comparison forms; C: bound feeders x consumers; D: blocks over three variables with different ranges in every context) is checked against the structural invariants (sorted duplicate-free variables = domain keys, every source variable present, one coefficient per variable in every row and the objective, finite numbers, unique row names, $-prefixed auxiliaries, no constant above 1e7), every missing-bounds rejection against its contract (non-empty list, exactly the unbounded variables of the offending expression per the hooked bounds analysis), plus 22 adversarial texts (duplicate and colliding row names, user variables named like auxiliaries, unused declarations, vanishing coefficients, infinite constants, infinite bounds under exact lowerings, empty aggregations), plus family U: 9 lowering templates x 9 declared types of a user variable, which is given the name of every auxiliary the twin model (user variable called u_q) generates: the colliding model must be refused or keep as many columns and rows as the twin; distinct = model text");
     run.assume("derived bounds read through the verif_hooks view of the bounds analysis on the normalised constraints, as the linearizer computes them");
     let sa = family_a_size(depth, false);
     run.family("A-core-in-context", sa, move |i, l| check_case(&family_a(i, depth, false), l));
+    run.family("AX-single-point-integer-range", crate::props::c01::family_ax_size(), |i, l| check_case(&crate::props::c01::family_ax(i, 0), l));
+    run.family("AXH-huge-finite-range", crate::props::c01::family_ax_size(), |i, l| check_case(&crate::props::c01::family_ax(i, 1), l));
     let trees = std::sync::Arc::new(family_b_trees(2));
     let t2 = trees.clone();
     run.family("B-logic-assertions", trees.len() as u64 * 31, move |i, l| check_case(&family_b(&t2, i), l));
     run.family("C-bound-feeders", family_c_size(), |i, l| check_case(&family_c(i), l));
     run.family("D-several-continuous-variables", family_d_size(1), |i, l| check_case(&family_d(i, 1), l));
     run.family("T-adversarial-texts", TEXTS.len() as u64, check_text);
-    for k in ["compiled", "rejected:MissingFiniteBounds", "missing-bounds-contracts-checked", "text:compiled", "text:rejected-by-linearizer"] {
+    run.family("U-user-variables-named-like-auxiliaries", (U_TEMPLATES.len() * U_TYPES.len()) as u64, check_collision);
+    for k in ["compiled", "rejected:MissingFiniteBounds", "missing-bounds-contracts-checked", "text:compiled", "text:rejected-by-linearizer", "collision:names-tried", "collision:refused"] {
         run.require(k);
     }
     run.finish()
